@@ -38,7 +38,7 @@ func TestCheck(t *testing.T) {
 		"(conc) 2-8 goroutines issuing the operations at the same virtual instants on 1-4 hot keys plus untouched keys while the periodic cleaner ticks at those instants, judged offline from call/return stamps of one atomic counter. "+
 		"(stop) 2-4 goroutines call Stop at the same virtual instant - mostly a tick instant of the periodic cleaner with 100-20000 expired entries waiting, so that the cleaner is inside a long Cleanup pass - after seeded Gosched delays, while other goroutines yield in a storm and race Set/Get/Delete/Cleanup; every returning Stop call takes a goroutine dump at once and is judged on its own (cleaner still inside its loop or inside Cleanup = violation; cleaner in its deferred exit path = not judged), followed by one more Stop after all returned. "+
 		"(resetrace) 6-18 rounds on one cache: the root stores fresh unique values under 1-48 old keys, then behind a spin barrier 1-2 goroutines call Reset (or a manual Cleanup) while 1-3 churners Set fresh keys (map growth), Delete them, overwrite and read old keys, under GOMAXPROCS 2/3/4/8/default; every old key is probed after all returned; judged by the concurrent-mode oracle (a Get starting after a Reset returned must not return a value whose Set returned before that Reset started). "+
-		"Every mode's key set contains the zero-value key the empty string (lock-step: a key like any other, plus directed scripts keeping a live the empty string entry through manual Cleanups with nothing expired and with other entries expired; conc: an untouched or a hot key; stop: the first untouched live key; resetrace: the first old key). The lock-step modes run on Cache[string], Cache[int] and Cache[*int]; the first Set of a history stores V's zero value, which must come back as a hit. "+
+		"Every mode's key set contains the zero-value key (the empty string) (lock-step: a key like any other, plus directed scripts keeping a live empty-string-keyed entry through manual Cleanups with nothing expired and with other entries expired; conc: an untouched or a hot key; stop: the first untouched live key; resetrace: the first old key). The lock-step modes run on Cache[string], Cache[int] and Cache[*int]; the first Set of a history stores V's zero value, which must come back as a hit. "+
 		"Non-trivial: (lock-step) at least one hit and one miss of a key that had been set; (conc) at least one pair of operations overlapping in logical time on one key, or an operation at a tick instant; (stop) at least two Stop calls were issued at one instant; (resetrace) at least one Set of a fresh key overlapped a Reset/Cleanup in logical time. Distinct = distinct operation list / schedule.")
 	rec.Note("require", []string{
 		"seq.boundary.hit_1ns_before_expiry", "seq.boundary.miss_exactly_at_expiry", "seq.boundary.miss_after_expiry",
